@@ -110,8 +110,7 @@ def linksym(run, vm):
 
 def newslotclean(run, fx):
     ns = fx.one('graphite2::Segment::newSlot')
-    rets = [e for _, e in ns.elements() if e['k'] == 'ReturnStmt' and ns.strip_all_casts(e['c'][0]).get('v') != 0
-            and ns.strip_all_casts(e['c'][0])['k'] not in ('CXXNullPtrLiteralExpr', 'GNUNullExpr')]
+    rets = [e for _, e in ns.elements() if e['k'] == 'ReturnStmt' and not ns.is_null(e['c'][0])]
     if len(rets) < 2:
         raise AnalysisBroken('Segment::newSlot: expected two non-null returns, found %d' % len(rets))
     nexts = [e for e in calls_in(ns, 'graphite2::Slot::next') if e.get('args')]
